@@ -78,11 +78,18 @@ def pda_to_accept_on_empty_stack_in_place(P: PDA) -> None:
     delta[q_initial, epsilon, epsilon].add((q0, stack_bottom))
     P.q0 = q_initial
 
-    # define a new accepting state
+    # define a new accepting state; the symbols that are left on the stack when P accepts
+    # are popped in the state q_drain (only pop moves are used, to stay in push/pop format)
+    q_drain = fresh_state(Q, 'q_drain')
+    Q.add(q_drain)
     q_accept = fresh_state(Q, 'q_accept')
     Q.add(q_accept)
-    for q in F:
-        delta[q, epsilon, stack_bottom].add((q_accept, epsilon))
+    for q in list(F) + [q_drain]:
+        for u in Gamma:
+            if u == stack_bottom:
+                delta[q, epsilon, u].add((q_accept, epsilon))
+            else:
+                delta[q, epsilon, u].add((q_drain, epsilon))
     F.clear()
     F.add(q_accept)
 
